@@ -196,7 +196,8 @@ class TT():
                           ] if self.__is_ttm else [n for n in self.N]
 
         elif isinstance(source, np.ndarray):
-            source = tn.tensor(source)
+            # (views with negative strides, e.g. a[::-1], cannot be converted directly)
+            source = tn.tensor(source.copy())
 
             if shape == None:
                 # no size is given. Deduce it from the tensor. No TT-matrix in this case.
